@@ -24,9 +24,15 @@ TRUSTED = [
 ]
 ASSUME = [
     "theorems are over Coq's R; the implementation computes in binary64",
-    "3-d / axisymmetric: the identification of (l^2+l-2)/2 with the first-order mean curvature of a harmonic "
-    "perturbation (Laplace-Beltrami eigenvalue) is NOT proved; it is checked numerically against a finite-difference "
-    "mean curvature of the level set |x| - R(theta, phi)",
+    "3-d / axisymmetric curvature: (l^2+l-2)/2 is PROVED to be the first-order mean curvature of a harmonic "
+    "perturbation for every mode of degree <= 4 (closed forms of the real harmonics, k = 0..24, and of Y_l0, l <= 4, "
+    "tied to the library's harmonics by sample goals; Laplace-Beltrami eigen-equation and first-order expansion by "
+    "Coquelicot derivatives), and for every degree relative to the eigen-equation as a premise.  The mean curvature "
+    "of a radial graph (H_radial, Model/Perturbed.v) is a DEFINITION taken from the level-set formula "
+    "H = div(grad F/|grad F|)/2, not derived inside Coq; it is compared on every run with a finite-difference "
+    "level-set mean curvature of the implementation's interface_distance (sample goals), and the check still "
+    "compares the coded curvature with that finite-difference curvature at first order",
+    "directions on the polar axis (sin theta = 0) are excluded from the curvature theorems (coordinate singularity)",
     "3-d volume and all surface integrals are not formalised (Coquelicot has 1-d integrals only); "
     "C13_volume_approx_first_order is relative to an abstract linear integral functional",
     "2-d surface_area: the quadrature error of the 256-point rule is checked numerically, not proved",
@@ -540,6 +546,41 @@ def _sample_goals(ctx, rng):
             add(f"volapprox{tag} R={Rr} amps={amps}", f"volapprox{tag} {R_(Rr)} {L}", d.volume_approx)
             ctx.case([f"sample{tag}", Rr, amps])
             ctx.count("sample_class", cls_name)
+    # closed forms of the harmonics (hand-written, Model/Perturbed.v) against the library's harmonics:
+    # normalisation, Condon-Shortley signs and the m ordering of spherical_index_lm, every mode up to degree 4
+    for rep in range(ctx.scale(1, 4)):
+        for k in range(25):
+            th, ph = rng.randrange(8, 194) / 64.0, rng.randrange(0, 403) / 64.0
+            add(f"Yreal k={k} theta={th} phi={ph}", f"Yreal {k}%nat {R_(th)} {R_(ph)}",
+                sp.spherical_harmonic_real_k(k, th, ph), 1.0)
+            ctx.count("harmonic_closed_form", f"degree {int(math.isqrt(k))}")
+        for l in range(5):
+            th = rng.randrange(8, 194) / 64.0
+            add(f"Ysym l={l} theta={th}", f"Ysym {l}%nat {R_(th)}", sp.spherical_harmonic_symmetric(l, th), 1.0)
+            ctx.count("harmonic_closed_form", f"axisymmetric degree {l}")
+    # the radial-graph mean-curvature formula H_radial (a definition in the Coq model) against the
+    # finite-difference level-set mean curvature of the implementation's interface_distance at finite amplitude
+    for cls_name, Rr, amps in (("PerturbedDroplet3D", 2.0, [0.02, -0.015, 0.01, 0.03, 0.0, -0.02, 0.01, 0.015]),
+                               ("PerturbedDroplet3D", 0.75, [0.0] * 8 + [0.01, 0.0, -0.012, 0.008, 0.0, 0.0, 0.01]),
+                               ("PerturbedDroplet3DAxisSym", 1.5, [0.03, -0.02, 0.015, 0.01])):
+        d = make(cls_name, Rr, [0.0, 0.0, 0.0], amps)
+        f = dist_fn(d, cls_name)
+        th, ph = rng.randrange(40, 160) / 64.0, rng.randrange(0, 403) / 64.0
+        h = 1e-3
+
+        def r(t, q):
+            return float(f(np.array([t]), np.array([q]))[0])
+        r0 = r(th, ph)
+        rt = (r(th + h, ph) - r(th - h, ph)) / (2 * h)
+        rp = (r(th, ph + h) - r(th, ph - h)) / (2 * h)
+        rtt = (r(th + h, ph) - 2 * r0 + r(th - h, ph)) / h ** 2
+        rpp = (r(th, ph + h) - 2 * r0 + r(th, ph - h)) / h ** 2
+        rtp = (r(th + h, ph + h) - r(th + h, ph - h) - r(th - h, ph + h) + r(th - h, ph - h)) / (4 * h ** 2)
+        Hfd = float(mean_curvature_fd(f, np.array([th]), np.array([ph]), sphere_radius=Rr)[0])
+        # tolerance: truncation errors of both finite-difference computations (h^2 l^4 eps ~ 1e-6) on 1/R
+        goals.append((f"H_radial {cls_name} R={Rr} amps={amps} theta={th} phi={ph}",
+                      f"H_radial {R_(th)} {R_(r0)} {R_(rt)} {R_(rp)} {R_(rtt)} {R_(rtp)} {R_(rpp)}", Hfd, 2e-5 / Rr))
+        ctx.count("radial_graph_curvature_formula", cls_name)
     ctx.sample({"goal": f"Rabs ({goals[1][1]} - {vlib.rlit(goals[1][2])}) <= tol", "impl_value": goals[1][2]})
     req = ("From Coq Require Import Reals ZArith List.\nImport ListNotations.\n"
            "From PD Require Import Model.Num Model.NumZ Model.Perturbed Gen.Gen_spherical Gen.Gen_spherical_index "
@@ -557,7 +598,7 @@ def check(ctx: vlib.Ctx) -> int:
     warnings.filterwarnings("ignore")
     rng = random.Random(ctx.seed)
     gens = ["Gen_spherical", "Gen_spherical_index", "Gen_perturbed"]
-    ok, fresh = vlib.prove_with_fallback(ctx, ["Proofs/C13.vo", "Proofs/PerturbedSamples.vo", "Model/Samples.vo"], gens=gens)
+    ok, fresh = vlib.prove_with_fallback(ctx, ["Proofs/C13.vo", "Proofs/PerturbedHarm.vo", "Proofs/PerturbedSamples.vo", "Model/Samples.vo"], gens=gens)
     ctx.tie.append("interval sample goals at seeded angles: every definition of the "
                    + ("regenerated" if fresh else "golden") + " Gen_perturbed evaluated inside Coq against the "
                    "implementation's values; numerical correspondence of volume / surface / positions / triangulation / "
